@@ -86,6 +86,20 @@ CHECKS = {
             {"name": "c04-nonterm", "bin": "cmdglyph", "build": "inpkg:cmd/glyph", "run": "^TestC04Nonterm$", "enumerate": True, "shards": 13, "gomaxprocs": 4, "rlimit_as_gb": 12},
         ],
     },
+    "C05": {
+        "level": "exploration",
+        "manifest": {
+            "technique": "model-based property-based testing (rapid) of route tables with engineered overlap against a reference router, at the library router and through the full server stack in both execution modes",
+            "level_text": "Tables of 1-8 declarations (same pattern under several methods, static vs parameter at the same position in both orders, exact duplicates, root, hyphenated segments) and requests derived from them are checked at two levels: Router.Match must pick exactly the declaration the reference picks (same method, fewest parameters, earliest on ties) with the right parameter binding, and the module served through setupRoutes/createHandler behind a ServeMux - compiled and interpreted - must answer 200 with that declaration's marker and bindings, or 404 with no marker when nothing matches. Odd paths (trailing slash, //, %2F, case, dot segments) only have to agree between modes, never 5xx, and never run a body of another method.",
+            "level_note": "Trusts the 25-line reference router in inpkg/cmdglyph/c05_test.go. Patterns use distinct parameter names (a repeated name has no defined binding). Requests are delivered through httptest, not a socket.",
+        },
+        "rule": ("rapid-generated route tables (1-8 declarations over 6 static segments, 3 parameter names, 5 methods; 60% derived from an earlier declaration by method change, static<->parameter flip, duplication or renaming) with 1-6 requests; "
+                 "non-trivial = for some canonical request at least two declarations match structurally under the request's method, or its pattern is declared under several methods; distinct = hash of (table, requests)"),
+        "assumptions": ["markers: every route returns {route: <declaration index>, <param>: <value>...}, so the body that ran and its bindings are read from the response"],
+        "units": [
+            {"name": "c05-route", "bin": "cmdglyph", "build": "inpkg:cmd/glyph", "run": "^TestC05Route$", "quick": 20000, "thorough": 1000000},
+        ],
+    },
     "C20": {
         "level": "exploration",
         "manifest": {
